@@ -23,6 +23,7 @@ def configs(tier):
     if tier == "quick":
         for w in [(0, 0), (0, 1), (1, 0), (2, 1)]:
             add("sdr-1p-K3-norefresh-w%d.%d" % w, refresh=False, K=3, watch=w, **SDR)
+        add("sdr-1p-K3-buffered-norefresh-w0.1", refresh=False, K=3, buffered=True, watch=(0, 1), **SDR)
         add("sdr-1p-K5-reads-norefresh-w0.0", refresh=False, K=5, rd_only=True, watch=(0, 0), **SDR)
         add("sdr-1p-K2-refresh-W12-w0.0", refresh=True, K=2, window=12, watch=(0, 0), **SDR)
         add("sdr-1p-K2-refresh-W12-w1.1", refresh=True, K=2, window=12, watch=(1, 1), **SDR)
